@@ -103,3 +103,26 @@ case("C09", "attr-equivalent-spelling", "HOLDS", [(I, "attr -= torch.mean(attr, 
 case("C09", "mask-inverted", "VIOLATION", [(I, "return X[:, :, start:end] * attr if hypothetical == False else attr", "return X[:, :, start:end] * attr if hypothetical == True else attr")], "MASK")
 case("C09", "mask-whole-x", "VIOLATION", [(I, "return X[:, :, start:end] * attr if hypothetical == False else attr", "return X[:, :, start:] * attr if hypothetical == False else attr")], "MASK")
 case("C09", "count-off", "VIOLATION", [(I, "X_ = X.repeat((end-start)*X.shape[0], 1, 1)", "X_ = X.repeat((end-start)*X.shape[0] + 1, 1, 1)")], "COUNT")
+
+# ------------------------------------------------------------------ C08
+AB = "tangermeme/ablate.py"; MG = "tangermeme/marginalize.py"; SP = "tangermeme/space.py"; PR = "tangermeme/product.py"
+prefix("C08", "D2-prefix-ablate-annotations", AB, "e41acab", "R-DIMCONF", "ablate.ablate_annotations")
+prefix("C08", "D2-prefix-marginalize-annotations", MG, "e41acab", "R-DIMCONF", "marginalize.marginalize_annotations")
+case("C08", "ablate-args-repeat", "VIOLATION", [(AB, "a.repeat_interleave(n, dim=0)", "a.repeat(n, *(1 for _ in a.shape[1:]))")], "R-ARGWIN", "ablate.ablate")
+case("C08", "ablate-args-nodim", "VIOLATION", [(AB, "a.repeat_interleave(n, dim=0)", "a.repeat_interleave(n)")], "R-ARGWIN", "ablate.ablate")
+case("C08", "ablate-unflatten-swapped", "VIOLATION", [(AB, "y_after = y_after.reshape(*X_perturb.shape[:2], *y_after.shape[1:])", "y_after = y_after.reshape(X_perturb.shape[1], X_perturb.shape[0], *y_after.shape[1:]).transpose(0, 1)")], "R-AXES", "ablate.ablate")
+case("C08", "ablate-before-on-perturbed", "VIOLATION", [(AB, "y_before = func(model, X, args=args, **kwargs, **additional_func_kwargs)", "y_before = func(model, X_perturb[:, 0], args=args, **kwargs, **additional_func_kwargs)")], "ROLE", "ablate.ablate")
+case("C08", "ablate-end-shift", "VIOLATION", [(AB, "X_perturb = shuffle_fn(X, start=start, end=end, n=n, ", "X_perturb = shuffle_fn(X, start=start, end=end+1, n=n, ")], "ROLE", "ablate.ablate")
+case("C08", "ablate-after-args-orig", "VIOLATION", [(AB, "\t\targs=args_n, **kwargs, **additional_func_kwargs)", "\t\targs=args, **kwargs, **additional_func_kwargs)")], "R-ARGWIN", "ablate.ablate")
+case("C08", "ablate-ann-wrong-example", "VIOLATION", [(AB, "ablate(model, X[idx:idx+1], start=start, end=end,", "ablate(model, X[:1], start=start, end=end,")], "ROLE", "ablate.ablate_annotations")
+case("C08", "marg-start-dropped", "VIOLATION", [(MG, "X_perturb = substitute(X, motif, start=start, alphabet=alphabet)", "X_perturb = substitute(X, motif, alphabet=alphabet)")], "ROLE", "marginalize.marginalize")
+case("C08", "marg-swapped-return", "VIOLATION", [(MG, "\treturn y_before, y_after\n\n\ndef", "\treturn y_after, y_before\n\n\ndef")], "ROLE", "marginalize.marginalize")
+case("C08", "marg-ann-span", "VIOLATION", [(MG, "seq = X[idx, :, start:end].unsqueeze(0)", "seq = X[idx, :, start:end+1].unsqueeze(0)")], "ROLE", "marginalize.marginalize_annotations")
+case("C08", "space-no-transpose-list", "VIOLATION", [(SP, "y_afters = [torch.stack(y_).transpose(0, 1) for y_ in list(zip(\n\t\t\t*y_afters))]", "y_afters = [torch.stack(y_) for y_ in list(zip(\n\t\t\t*y_afters))]")], "R-AXES", "space.space")
+case("C08", "space-stack-dim1", "HOLDS", [(SP, "y_befores = torch.stack(y_befores).transpose(0, 1)", "y_befores = torch.stack(y_befores, dim=1)")])
+case("C08", "space-start-dropped", "VIOLATION", [(SP, "X_perturb = multisubstitute(X, motifs, _spacing, start=start, \n\t\t\talphabet=alphabet)", "X_perturb = multisubstitute(X, motifs, _spacing, \n\t\t\talphabet=alphabet)")], "ROLE", "space.space")
+case("C08", "space-first-spacing-only", "VIOLATION", [(SP, "_spacing = [s.item() for s in _spacing]", "_spacing = [s.item() for s in spacing[0]]")], "ROLE", "space.space")
+case("C08", "product-xal-swapped", "VIOLATION", [(PR, "Xal = [len(X), len(args[0])]", "Xal = [len(args[0]), len(X)]")], "R-AXES", "product.apply_pairwise")
+case("C08", "product-order-swapped", "VIOLATION", [(PR, "itertools.product(X, *args)", "itertools.product(*args, X)")], None, "product.apply_product")
+case("C08", "product-no-flush", "VIOLATION", [(PR, "\telse:\n\t\tif len(X_) > 0:\n\t\t\ty_ = _apply(func, model, X_, args=args_, batch_size=batch_size, \n\t\t\t\tdevice=device, verbose=verbose,\n\t\t\t\tadditional_func_kwargs=additional_func_kwargs, **kwargs)\n\t\t\ty.append(y_)\n", "")], "R-FLUSH", "product.apply_product")
+case("C08", "product-reset-only-x", "VIOLATION", [(PR, "\t\t\tX_, args_ = [], [[] for _ in args]\n\telse:\n\t\tif len(X_) > 0:\n\t\t\ty_ = _apply(func, model, X_, args=args_, batch_size=batch_size, \n\t\t\t\tdevice=device, verbose=verbose, \n", "\t\t\tX_ = []\n\telse:\n\t\tif len(X_) > 0:\n\t\t\ty_ = _apply(func, model, X_, args=args_, batch_size=batch_size, \n\t\t\t\tdevice=device, verbose=verbose, \n")], "R-FLUSH", "product.apply_pairwise")
